@@ -4,6 +4,7 @@ import (
 	"errors"
 	"fmt"
 	"math"
+	"strings"
 	"testing"
 
 	"github.com/cybergarage/go-redis/redis"
@@ -27,6 +28,15 @@ type handlerResult struct {
 func drawHandlerResult(t *sim.Tape) handlerResult {
 	h := handlerResult{kind: t.Draw(11, "hkind")}
 	h.text = hostileText[t.Draw(len(hostileText), "htext")]
+	if t.Draw(4, "pad") == 3 { // 0 stays the cheap choice
+		// the hostile bytes at the very end of a text whose reply line ends around a power of two
+		// (where growing or pooled output buffers change hands)
+		k := []int{6, 7, 8, 9, 10, 11, 12, 12, 13, 13, 14, 15, 16}[t.Draw(13, "padk")]
+		l := 1<<k - 44 + t.Draw(50, "padd")
+		if l > len(h.text) {
+			h.text = strings.Repeat("x", l-len(h.text)) + h.text
+		}
+	}
 	switch h.kind {
 	case 3:
 		h.val = genValue(t, 1, false)
@@ -241,7 +251,7 @@ func init() {
 	register(&Check{
 		ID: "C04", Bubble: true, Run: runC04,
 		Runs:   map[string]int{"quick": 40000, "thorough": 1500000},
-		Rule:   "a case is one (client value stream, handler-result plan, delivery schedule) triple: client values of every RESP type incl. odd command arrays and hostile bytes; per handler call an injected result (hostile status/error text, arbitrary value tree, nil, error, message+error, floats incl. Inf/NaN, status/error/integer/bulk messages whose payload the handler set through proto.Message.SetBytes); distinct = distinct (shape, chunking, stream hash) signatures; non-trivial = handler faults enabled or chunked delivery",
+		Rule:   "a case is one (client value stream, handler-result plan, delivery schedule) triple: client values of every RESP type incl. odd command arrays and hostile bytes; per handler call an injected result (hostile status/error text incl. texts padded so that the reply line ends within a few bytes of a power of two between 64 B and 64 KiB, arbitrary value tree, nil, error, message+error, floats incl. Inf/NaN, status/error/integer/bulk messages whose payload the handler set through proto.Message.SetBytes); distinct = distinct (shape, chunking, stream hash) signatures; non-trivial = handler faults enabled or chunked delivery",
 		Real:   []string{"redis.Server connection loop, dispatch, executors, error construction, redis/proto serializer"},
 		Stub:   []string{"transport: simulated net.Conn", "handler: double returning injected results built with the public constructors"},
 		Assume: []string{"an integer message whose text a handler set to non-numeric bytes is judged on framing only (one complete line without CR/LF): the framework cannot make it a number", "arrays are built with NewArrayMessage/Append of non-nil messages"},
